@@ -629,23 +629,48 @@ func (an *Analyzer) oblMake(s *State, f *Frame, i *ssa.MakeSlice, l, cp Lin, fin
 	}
 	expr += ")"
 	nonneg := s.proveLE(Lin{nil, 0}, l, 0) && s.proveLE(l, cp, 0)
-	bounded := s.hi(cp) <= an.cfg.AllocBound
-	why := ""
+	cfgOnly := an.cfg.ConfigField != nil && onlyConfig(i.Cap, an.cfg.ConfigField, 0)
+	// K5: the size is a valid one (a negative size or len > cap panics)
 	switch {
-	case !nonneg:
-		why = fmt.Sprintf("length %s (range %s) may be negative or exceed capacity", l, itv{s.lo(l), s.hi(l)})
-	case !bounded:
-		why = fmt.Sprintf("allocation size %s has no constant upper bound (range %s): a length field taken from the datagram sizes the allocation", cp, itv{s.lo(cp), s.hi(cp)})
-	}
-	if !bounded && nonneg && an.cfg.ConfigField != nil && onlyConfig(i.Cap, an.cfg.ConfigField, 0) {
+	case nonneg:
+		an.record(f, i, "K5", expr, true, "", s)
+	case cfgOnly:
 		an.recordAssumed(f, i, "K5", expr, "size derives only from configuration options and constants (assumption A-config: option values are sane)")
-		return
+	default:
+		an.record(f, i, "K5", expr, false, fmt.Sprintf("length %s (range %s) may be negative or exceed capacity", l, itv{s.lo(l), s.hi(l)}), s)
 	}
-	if !nonneg && an.cfg.ConfigField != nil && onlyConfig(i.Cap, an.cfg.ConfigField, 0) {
-		an.recordAssumed(f, i, "K5", expr, "size derives only from configuration options and constants (assumption A-config: option values are sane)")
-		return
+	// K12: the amount allocated is bounded by a constant or by the length of a buffer that already exists
+	hi := s.hi(cp)
+	switch {
+	case hi <= an.cfg.AllocBound:
+		an.record(f, i, "K12", expr, true, fmt.Sprintf("at most %d elements", hi), s)
+	case cfgOnly:
+		an.recordAssumed(f, i, "K12", expr, "size derives only from configuration options and constants (assumption A-config: option values are sane)")
+	default:
+		if bt, c, ok := an.existingLenBound(s, cp); ok {
+			an.record(f, i, "K12", expr, true, fmt.Sprintf("at most %s + %d: proportional to a buffer that already exists", bt, c), s)
+			return
+		}
+		an.record(f, i, "K12", expr, false, fmt.Sprintf("allocation size %s has no upper bound that is a constant or the length of an existing buffer (range %s): a length or count field taken from the datagram sizes the allocation", cp, itv{s.lo(cp), s.hi(cp)}), s)
 	}
-	an.record(f, i, "K5", expr, nonneg && bounded, why, s)
+}
+
+// existingLenBound: cp <= len(x) + c or cap(x) + c for a slice/string x that already exists.
+func (an *Analyzer) existingLenBound(s *State, cp Lin) (*Term, int64, bool) {
+	if cp.base != nil && (cp.base.kind == "len" || cp.base.kind == "cap") {
+		return cp.base, cp.c, true
+	}
+	if cp.base == nil {
+		return nil, 0, false
+	}
+	var best *Term
+	var bc int64
+	for y, c := range s.ub[cp.base] {
+		if y != nil && (y.kind == "len" || y.kind == "cap") && (best == nil || y.key < best.key) {
+			best, bc = y, c+cp.c
+		}
+	}
+	return best, bc, best != nil
 }
 
 // onlyConfig: the value is computed from configuration fields and constants only.
